@@ -12,6 +12,10 @@ def _p(corpora, level='model_checking', rule='', assumptions=None):
 
 
 PROPS = {
+    'C13': _p(lambda t: ['sink'], level='fault_enumeration',
+              rule='a case is a (history, fault schedule) pair: every write-call index x {5 error kinds, Ok(0), Interrupted x1/x3, accept 1, accept n-1, fail-once} and every byte offset of the output as a short-write cut, for representative histories of every layout; non-trivial when the schedule contains a non-full response',
+              assumptions=['fault schedules are enumerated for representative histories (listed in coverage.samples), not for all histories', 'the design-level model MuxideSink.tla is checked for files of 6 abstract bytes and buffers of <= 4']),
+
     'C10': _p(lambda t: ['frag'],
               rule='a case is a write/flush/query/init sequence on a fragmented muxer enumerated by TLC from MCFrag or drawn by the seeded generator; non-trivial when >= 2 segments are emitted',
               assumptions=['bounded: sequences up to the stated length over the stated dts-step / composition-offset alphabets, plus seeded random runs of up to 100 samples', 'the independent reader resolves trun/tfdt/mfhd faithfully']),
